@@ -721,7 +721,10 @@ func (g *graph) compile(ctx context.Context, opt *graphCompileOptions) (*composa
 	}
 
 	mappedInputNodes := make(map[string]bool, len(g.fieldMappingRecords))
+	staticInputNodes := make(map[string]bool, len(g.handlerPreNode))
 	for key := range g.fieldMappingRecords {
+		// at this point the only pre-node handlers are the ones that merge a Workflow node's static values in
+		staticInputNodes[key] = len(g.handlerPreNode[key]) > 0
 		// not allowed to map multiple fields to the same field
 		toMap := make(map[string]bool)
 		for _, mapping := range g.fieldMappingRecords[key] {
@@ -842,6 +845,7 @@ func (g *graph) compile(ctx context.Context, opt *graphCompileOptions) (*composa
 		edgeHandlerManager:      &edgeHandlerManager{h: g.handlerOnEdges},
 
 		mappedInputNodes: mappedInputNodes,
+		staticInputNodes: staticInputNodes,
 	}
 
 	successors := make(map[string][]string)
